@@ -90,6 +90,23 @@ def struct_eq(it, a, b, depth=0):
     raise Undecided("equality of %r and %r" % (a, b))
 
 
+def _run_pending(it, sc, call_callable, term, caller, depth):
+    """run the not-yet-run tasks of a thread scope, each atomically, in an order chosen by the harness"""
+    import itertools
+    pend = [i for i, t in enumerate(sc["tasks"]) if not t["done"]]
+    if not pend:
+        return
+    order = pend
+    choose = getattr(it.h, "choose", None)
+    if len(pend) > 1 and choose is not None:
+        perms = [tuple(p_) for p_ in itertools.permutations(pend)]
+        order = choose("schedule@scope%d/%s" % (sc["id"], ",".join(map(str, pend))), tuple(perms))
+    for i in order:
+        t = sc["tasks"][i]
+        t["done"] = True
+        t["result"] = call_callable(it, t["f"], [], term, caller, depth)
+
+
 def apply(it, fn, args, dest_ty, term, caller, depth, M):
     """M = the models module (for helpers)"""
     path = M._strip(fn.get("path", ""))
@@ -141,6 +158,77 @@ def apply(it, fn, args, dest_ty, term, caller, depth, M):
             if isinstance(v, Arr):
                 return VecV(list(v.elems))
 
+    # ------------------------------------------------------------------ == / != on std enums and structs (Option, Result, Ordering, tuples)
+    if name in ("eq", "ne") and tr.split("::")[-1].split("<")[0] == "PartialEq" and len(args) == 2:
+        xa, xb = deref_val(it, args[0]), deref_val(it, args[1])
+        if (isinstance(xa, Adt) and isinstance(xb, Adt) and xa.name == xb.name and (xa.name.startswith("std::") or xa.name.startswith("core::"))) or \
+                (isinstance(xa, Tup) and isinstance(xb, Tup)):
+            same = struct_eq(it, xa, xb)
+            return mkbool(same if name == "eq" else not same)
+
+    # ------------------------------------------------------------------ From / Into between sequence types
+    if name in ("from", "into") and (tr.endswith("convert::From") or tr.startswith("std::convert::From") or tr.endswith("convert::Into") or "convert::From<" in tr or "convert::Into<" in tr) and len(args) == 1:
+        a = args[0]
+        dty = dest_ty or ""
+        src = a
+        if isinstance(a, Ref):
+            sq = seq_of(it, a)
+            src = VecV(list(sq[0].elems[sq[1]:sq[1] + sq[2]])) if sq is not None else a
+        if isinstance(src, (VecV, Arr, M.DequeV)):
+            if dty.startswith("std::collections::VecDeque<"):
+                return M.DequeV(list(src.elems))
+            if dty.startswith("std::vec::Vec<") or dty.startswith("std::string::String") or dty.startswith("std::boxed::Box<["):
+                return VecV(list(src.elems))
+
+    # ------------------------------------------------------------------ comparison of tuples / cmp::Reverse
+    if name in ("cmp", "partial_cmp", "lt", "le", "gt", "ge", "eq", "ne") and len(args) == 2 and tr.split("::")[-1].split("<")[0] in ("Ord", "PartialOrd", "PartialEq"):
+        xa, xb = deref_val(it, args[0]), deref_val(it, args[1])
+
+        def ord_t(p_, q_):
+            if isinstance(p_, Adt) and isinstance(q_, Adt) and p_.name.endswith("cmp::Reverse") and q_.name.endswith("cmp::Reverse"):
+                return -ord_t(p_.fields[0], q_.fields[0])
+            if isinstance(p_, Tup) and isinstance(q_, Tup) and len(p_.fields) == len(q_.fields):
+                for u_, v_ in zip(p_.fields, q_.fields):
+                    c_ = ord_t(u_, v_)
+                    if c_:
+                        return c_
+                return 0
+            return _ord_of(it, p_, q_, "tuple comparison")
+        if (isinstance(xa, Tup) and isinstance(xb, Tup)) or (isinstance(xa, Adt) and xa.name.endswith("cmp::Reverse") and isinstance(xb, Adt)):
+            c = ord_t(xa, xb)
+            if name == "cmp":
+                return Adt(ORD, c + 1, [])
+            if name == "partial_cmp":
+                return some(Adt(ORD, c + 1, []))
+            return mkbool({"lt": c < 0, "le": c <= 0, "gt": c > 0, "ge": c >= 0, "eq": c == 0, "ne": c != 0}[name])
+
+    # ------------------------------------------------------------------ HashSet / BTreeSet of concrete integers
+    if ("collections::HashSet" in path or "collections::BTreeSet" in path or "hash::set::HashSet" in path or "btree::set::BTreeSet" in path or
+            "collections::hash::set" in path or "collections::btree::set" in path):
+        if name in ("new", "default", "with_capacity") and not (args and isinstance(args[0], Ref)):
+            return Opaque(dest_ty, {"collected-set"}, {"items": []})
+        if args and isinstance(args[0], Ref):
+            sv = it.read(args[0].cell, args[0].path)
+            if isinstance(sv, Opaque) and "collected-set" in sv.tags and all(_conc(deref_val(it, x)) for x in sv.info["items"]):
+                vals = [deref_val(it, x).val for x in sv.info["items"]]
+                if name == "contains" and len(args) == 2 and _conc(deref_val(it, args[1])):
+                    return mkbool(deref_val(it, args[1]).val in vals)
+                if name == "insert" and len(args) == 2 and _conc(deref_val(it, args[1])):
+                    x = deref_val(it, args[1])
+                    fresh = x.val not in vals
+                    if fresh:
+                        it.write(args[0].cell, args[0].path, Opaque(sv.ty, sv.tags, {"items": list(sv.info["items"]) + [x]}))
+                    return mkbool(fresh)
+                if name == "remove" and len(args) == 2 and _conc(deref_val(it, args[1])):
+                    x = deref_val(it, args[1])
+                    had = x.val in vals
+                    it.write(args[0].cell, args[0].path, Opaque(sv.ty, sv.tags, {"items": [y for y in sv.info["items"] if deref_val(it, y).val != x.val]}))
+                    return mkbool(had)
+                if name == "len":
+                    return Int(64, False, val=len(set(vals)))
+                if name == "is_empty":
+                    return mkbool(not vals)
+
     # ------------------------------------------------------------------ comparison of sequences (Vec / slice / array): lexicographic
     if name in ("cmp", "partial_cmp", "eq", "ne", "lt", "le", "gt", "ge") and len(args) == 2 and tr.split("::")[-1].split("<")[0] in ("Ord", "PartialOrd", "PartialEq"):
         def seq_items(x):
@@ -173,48 +261,59 @@ def apply(it, fn, args, dest_ty, term, caller, depth, M):
                 return some(Adt(ORD, c + 1, []))
             return mkbool({"lt": c < 0, "le": c <= 0, "gt": c > 0, "ge": c >= 0}[name])
 
-    # ------------------------------------------------------------------ threads, modelled sequentially
-    # std::thread::scope / Scope::spawn / thread::spawn + join: the spawned closure is run at the spawn point and its value is handed
-    # out by join().  This is exact when the threads communicate only through their return values; a spawned closure that writes to
-    # a cell that existed before the spawn (shared mutable state) makes the run unsupported (schedule-dependent behaviour is not decided).
+    # ------------------------------------------------------------------ threads: explicit schedules at closure granularity
+    # std::thread::scope / Scope::spawn / JoinHandle::join / mpsc channels.  A spawned closure is a task; tasks run atomically, in an
+    # order chosen by the harness oracle ("schedule@…": every permutation of the pending tasks is explored when the harness explores
+    # oracles; otherwise program order).  Every explored order is a real schedule, so a result that differs between two of them is a real
+    # schedule dependence; results that agree on all of them are schedule-independent only up to this granularity (stated in the evidence).
     if path in ("std::thread::scope", "core::thread::scope") and len(args) == 1:
-        return call_callable(it, args[0], [Ref(Cell(Opaque("std::thread::Scope", {"thread-scope"}), "scope"))], term, caller, depth)
-    if (name == "spawn" and ("thread::Scope" in path or "thread::scoped::Scope" in path) and len(args) == 2) or \
-            (path in ("std::thread::spawn",) and len(args) == 1):
-        f = args[-1]
-        fv = deref_val(it, f)
-        shared = set()
-
-        def collect(v, d=0):
-            if d > 4:
-                return
-            if isinstance(v, Ref):
-                shared.add(id(v.cell))
-                collect(v.cell.v, d + 1)
-            elif isinstance(v, (Adt, Tup)):
-                for x in v.fields:
-                    collect(x, d + 1)
-            elif isinstance(v, (VecV, Arr)):
-                for x in v.elems[:64]:
-                    collect(x, d + 1)
-            elif hasattr(v, "upvars"):
-                for x in v.upvars:
-                    collect(x, d + 1)
-        collect(fv)
-        orig_write = it.write
-
-        def guarded_write(cell, path_, newv, tyhint=None):
-            if id(cell) in shared:
-                raise Unsupported("a spawned closure writes state shared with other threads (%s): the outcome may depend on the schedule" % getattr(cell, "name", "?"))
-            return orig_write(cell, path_, newv, tyhint)
-        it.write = guarded_write
-        try:
-            r = call_callable(it, f, [], term, caller, depth)
-        finally:
-            it.write = orig_write
-        return Adt("std::thread::JoinHandle", 0, [r])
-    if name == "join" and ("JoinHandle" in path) and len(args) == 1 and isinstance(args[0], Adt) and args[0].name == "std::thread::JoinHandle":
-        return Adt("std::result::Result", 0, [args[0].fields[0]])
+        reg = it.__dict__.setdefault("_scopes", [])
+        sc = {"tasks": [], "id": len(reg)}
+        reg.append(sc)
+        r = call_callable(it, args[0], [Ref(Cell(Opaque("std::thread::Scope", {"thread-scope"}, {"scope": sc["id"]}), "scope"))], term, caller, depth)
+        _run_pending(it, sc, call_callable, term, caller, depth)
+        return r
+    if name == "spawn" and ("thread::Scope" in path or "thread::scoped::Scope" in path) and len(args) == 2:
+        scv = deref_val(it, args[0])
+        reg = it.__dict__.get("_scopes", [])
+        sid = scv.info.get("scope") if isinstance(scv, Opaque) else None
+        if sid is None or sid >= len(reg):
+            raise Unsupported("spawn on an unknown thread scope")
+        sc = reg[sid]
+        if len(sc["tasks"]) >= 4:
+            raise Unsupported("more than 4 concurrent tasks in one scope")
+        sc["tasks"].append({"f": args[1], "done": False, "result": None})
+        return Adt("std::thread::ScopedJoinHandle", 0, [Int(64, False, val=sid), Int(64, False, val=len(sc["tasks"]) - 1)])
+    if name == "join" and "JoinHandle" in path and len(args) == 1 and isinstance(args[0], Adt) and args[0].name == "std::thread::ScopedJoinHandle":
+        sid, ti = args[0].fields[0].val, args[0].fields[1].val
+        sc = it.__dict__.get("_scopes", [])[sid]
+        _run_pending(it, sc, call_callable, term, caller, depth)
+        return Adt("std::result::Result", 0, [sc["tasks"][ti]["result"]])
+    if path in ("std::sync::mpsc::channel", "core::sync::mpsc::channel") and not args:
+        q = Cell(VecV([]), "channel-queue")
+        return Tup([Adt("std::sync::mpsc::Sender", 0, [Ref(q)]), Adt("std::sync::mpsc::Receiver", 0, [Ref(q)])])
+    if "mpsc::Sender" in path or "mpsc::Receiver" in path or (name == "clone" and args and isinstance(deref_val(it, args[0]), Adt) and deref_val(it, args[0]).name == "std::sync::mpsc::Sender"):
+        ch = deref_val(it, args[0]) if args else None
+        if isinstance(ch, Adt) and ch.name in ("std::sync::mpsc::Sender", "std::sync::mpsc::Receiver"):
+            q = ch.fields[0]
+            if name == "clone":
+                return ch
+            if name == "send" and len(args) == 2:
+                cur = it.read(q.cell, q.path)
+                it.write(q.cell, q.path, VecV(list(cur.elems) + [args[1]]))
+                return Adt("std::result::Result", 0, [Tup([])])
+            if name in ("recv", "try_recv") and len(args) == 1:
+                cur = it.read(q.cell, q.path)
+                if not cur.elems:
+                    for sc in it.__dict__.get("_scopes", []):
+                        _run_pending(it, sc, call_callable, term, caller, depth)
+                    cur = it.read(q.cell, q.path)
+                if not cur.elems:
+                    if name == "try_recv":
+                        return Adt("std::result::Result", 1, [Opaque("TryRecvError", {"empty"})])
+                    raise Undecided("recv on an empty channel (blocks, or fails if every sender is gone)")
+                it.write(q.cell, q.path, VecV(list(cur.elems[1:])))
+                return Adt("std::result::Result", 0, [cur.elems[0]])
 
     # ------------------------------------------------------------------ mem
     if path in ("core::mem::swap", "std::mem::swap") and len(args) == 2 and all(isinstance(a, Ref) for a in args):
@@ -329,8 +428,25 @@ def apply(it, fn, args, dest_ty, term, caller, depth, M):
             return a
         if name in ("to_le", "to_be", "from_le", "from_be") and name in ("to_le", "from_le"):
             return a
+        if name in ("to_le_bytes", "to_be_bytes", "to_ne_bytes") and len(args) == 1:
+            bits = list(a.getbits())
+            bs = [Int(8, False, bits=bits[8 * i: 8 * i + 8]) for i in range(a.w // 8)]
+            return Arr(bs if name != "to_be_bytes" else list(reversed(bs)))
         if name in ("MAX", "MIN"):
             return a.like(val=mx if name == "MAX" else 0)
+    if path.startswith("core::num::<impl ") and name in ("from_le_bytes", "from_be_bytes", "from_ne_bytes") and len(args) == 1 and isinstance(args[0], Arr) \
+            and all(isinstance(e, Int) and e.w == 8 for e in args[0].elems):
+        el = list(args[0].elems)
+        if name == "from_be_bytes":
+            el = list(reversed(el))
+        bits = []
+        for e in el:
+            bits.extend(list(e.getbits()))
+        iti = it.int_of_ty(dest_ty)
+        if iti and iti[0] == len(bits):
+            return Int(iti[0], iti[1], bits=bits)
+    if name == "map" and "array::<impl [" in path and len(args) == 2 and isinstance(args[0], Arr):
+        return Arr([call_callable(it, args[1], [e], term, caller, depth) for e in args[0].elems])
     if name == "clamp" and tr.endswith("cmp::Ord") and len(args) == 3 and all(isinstance(x, Int) for x in args):
         a, lo, hi = args
         if _ord_of(it, a, lo, "clamp") < 0:
@@ -366,6 +482,13 @@ def apply(it, fn, args, dest_ty, term, caller, depth, M):
         ov = it.read(o.cell, o.path) if byref else o
         if isinstance(ov, Adt) and ov.name.endswith("option::Option") and ov.variant is not None:
             is_some = ov.variant == 1
+            if name in ("as_deref", "as_deref_mut", "as_slice"):
+                if not is_some:
+                    return none()
+                inner = ov.fields[0]
+                if byref:
+                    return some(Ref(o.cell, tuple(o.path) + (("f", 0),)))
+                return some(inner)
             if name == "zip" and len(args) == 2 and isinstance(args[1], Adt) and args[1].variant is not None:
                 return some(Tup([ov.fields[0], args[1].fields[0]])) if is_some and args[1].variant == 1 else none()
             if name == "xor" and len(args) == 2 and isinstance(args[1], Adt) and args[1].variant is not None:
@@ -746,8 +869,34 @@ def apply(it, fn, args, dest_ty, term, caller, depth, M):
             if name in ("unzip", "partition") and by_ref_cell is None:
                 _, items = drain(src)
                 if name == "unzip":
+                    def split_top(ty):
+                        ty = ty.strip()
+                        if not (ty.startswith("(") and ty.endswith(")")):
+                            return None
+                        parts, d_, cur_ = [], 0, ""
+                        for ch in ty[1:-1]:
+                            if ch in "(<[":
+                                d_ += 1
+                            elif ch in ")>]":
+                                d_ -= 1
+                            if ch == "," and d_ == 0:
+                                parts.append(cur_.strip())
+                                cur_ = ""
+                            else:
+                                cur_ += ch
+                        if cur_.strip():
+                            parts.append(cur_.strip())
+                        return parts
+
+                    def unz(xs, ty):
+                        parts = split_top(ty or "")
+                        if parts is None or len(parts) != 2:
+                            return VecV(xs)
+                        if not all(isinstance(x, Tup) and len(x.fields) == 2 for x in xs):
+                            raise Undecided("unzip of non-pairs")
+                        return Tup([unz([x.fields[0] for x in xs], parts[0]), unz([x.fields[1] for x in xs], parts[1])])
                     if all(isinstance(x, Tup) and len(x.fields) == 2 for x in items):
-                        return Tup([VecV([x.fields[0] for x in items]), VecV([x.fields[1] for x in items])])
+                        return unz(items, dest_ty)
                     return NotImplemented
                 a_, b_ = [], []
                 by_val = "Vec<&" not in dest_ty
@@ -788,6 +937,31 @@ def apply(it, fn, args, dest_ty, term, caller, depth, M):
                 for x in items[1:]:
                     acc = call_callable(it, args[1], [acc, x], term, caller, depth)
                 return some(acc)
+            if name == "try_for_each" and len(args) == 2:
+                cur = src
+                res = None
+                for _ in range(100000):
+                    cur, item = iter_next(it, cur, term, caller, depth)
+                    if item.variant == 0:
+                        break
+                    r_ = call_callable(it, args[1], [item.fields[0]], term, caller, depth)
+                    if not (isinstance(r_, Adt) and r_.variant is not None):
+                        raise Undecided("try_for_each closure returned %r" % (r_,))
+                    stop = (r_.name.endswith("result::Result") and r_.variant == 1) or (r_.name.endswith("option::Option") and r_.variant == 0) or \
+                        (r_.name.endswith("ControlFlow") and r_.variant == 1)
+                    if stop:
+                        res = r_
+                        break
+                if by_ref_cell is not None:
+                    it.write(by_ref_cell.cell, by_ref_cell.path, cur)
+                if res is not None:
+                    return res
+                dty = dest_ty or ""
+                if dty.startswith("std::result::Result"):
+                    return Adt("std::result::Result", 0, [Tup([])])
+                if dty.startswith("std::option::Option"):
+                    return some(Tup([]))
+                return Adt("std::ops::ControlFlow", 0, [Tup([])])
             if name == "try_fold":
                 return NotImplemented
     if name == "remainder" and "ChunksExact" in path and len(args) == 1:
@@ -795,6 +969,8 @@ def apply(it, fn, args, dest_ty, term, caller, depth, M):
         if isinstance(cv, IterV) and cv.kind == "chunks_exact":
             return cv.a[1]
     # iter::repeat / once / empty / repeat_n / successors are rare in this crate: not modelled
+    if path in ("core::iter::from_fn", "std::iter::from_fn") and len(args) == 1:
+        return IterV("from_fn", (args[0],))
     if path in ("core::iter::once", "std::iter::once") and len(args) == 1:
         return IterV("owned", (Ref(Cell(VecV([args[0]]), "once")), 0, 1))
     if path in ("core::iter::empty", "std::iter::empty") and not args:
